@@ -118,6 +118,53 @@ def padded_width(f, desc):
     return best[1] if best else None
 
 
+def labeled_prefix_bytes(prog, rep, bind, alen, maxlen):
+    """Finite partition over the prefix length m of one labeled-unicast route (one label): the bytes
+    handed to the address constructor must be exactly the address length of the family (prefix octets
+    + zero padding), for every m including 0."""
+    import math
+    from ..interp import Interp
+    from ..values import ClassV, FuncV
+    qual = 'yabgp.message.attribute.nlri.labeled_unicast.LabeledUnicast.parse'
+    f = prog.func(qual)
+    cls = prog.cls(bind)
+    bads = []
+    n = 0
+    for m in range(0, maxlen + 1):
+        ip = Interp(prog, max_paths=4000)
+        ip.while_unroll = 1
+        ip.record_hexlify = True
+        st = State()
+        st.frames.append({})
+        nbytes = int(math.ceil(m / 8.0))
+        data = BytesV([('lit', bytes([24 + m]) + b'\x00\x01\x01' + b'\x0a' * nbytes)])
+        outs = ip.call_func(FuncV(f, ClassV(cls)), [data, Const(False)], {}, st)
+        for k, v, s in outs:
+            if k != 'val':
+                continue
+            n += 1
+            for a in s.actions:
+                if a.kind == 'call' and a.meth == 'b2a_hex' and a.func and a.func.endswith('LabeledUnicast.parse'):
+                    lo, hi = prims.bytes_len(a.args[0], s)
+                    if (lo, hi) != (alen, alen):
+                        bads.append((m, 'the address is built from %s octets (expected %d)' % (
+                            lo if lo == hi else '%s..%s' % (lo, hi), alen)))
+    key = 'prefix-bytes:%s' % bind.rsplit('.', 1)[-1]
+    if n == 0:
+        rep.undecided('R07.b', key, file=f.file, line=f.node.lineno, found='no decoding path')
+    elif bads:
+        seen = set()
+        for m, why in bads:
+            if m in seen or len(seen) >= 4:
+                continue
+            seen.add(m)
+            rep.bad('R07.b', key + ':m=%d' % m, file=f.file, line=f.node.lineno, func=qual,
+                    found='prefix length %d: %s' % (m, why), expected='ceil(m/8) prefix octets + zero padding',
+                    key=key + ':m=%d' % m)
+    else:
+        rep.ok('R07.b', key, file=f.file, line=f.node.lineno, found='%d lengths, %d paths' % (maxlen + 1, n))
+
+
 def check(prog, rep, tier):
     rep.rule('R07.a', 'family dispatch symmetry: every (AFI, SAFI) MP_REACH / MP_UNREACH construct emits is '
                       'decoded by the same codec class in parse (SR-TE and IPv6 flowspec are construct-only)')
@@ -159,6 +206,10 @@ def check(prog, rep, tier):
 
     from .c06 import decoder_width
     decoder_width(prog, rep, 'R07.b', 'yabgp.message.attribute.nlri.ipv6_unicast.IPv6Unicast.parse', 128, [Const(False)])
+
+    for bind, alen, maxlen in (('yabgp.message.attribute.nlri.labeled_unicast.ipv4.IPv4LabeledUnicast', 4, 32),
+                               ('yabgp.message.attribute.nlri.labeled_unicast.ipv6.IPv6LabeledUnicast', 16, 128)):
+        labeled_prefix_bytes(prog, rep, bind, alen, maxlen)
 
     # ---------------------------------------------------------------- R07.c
     cm = prog.module('yabgp.common.constants')
@@ -204,6 +255,30 @@ def check(prog, rep, tier):
             items = BL.fields(BL.flatten(v))
             if items and items[0][0] == 'field' and isinstance(items[0][2], Const):
                 rd_types.add(items[0][2].value)
+    # field ranges of the numeric RD types: type 0 = 2-octet ASN : 4-octet number, type 2 = 4-octet ASN :
+    # 2-octet number.  The ASN must fit its field on the path that picks the type, and type 2 must be
+    # picked only for ASNs that do not fit 16 bits (otherwise a 32-bit number lands in a 16-bit field).
+    for k, v, s in outs:
+        if k != 'val' or not isinstance(v, BytesV):
+            continue
+        items = BL.fields(BL.flatten(v))
+        codes = ''.join(p[1] for p in items if p[0] == 'field')
+        if codes not in ('HHI', 'HIH') or not isinstance(items[0][2], Const):
+            continue
+        asn = items[1][2]
+        lo, hi, _n = s.interval(asn.desc()) if not isinstance(asn, Const) else (asn.value, asn.value, None)
+        key = 'rd-range:type%d' % items[0][2].value
+        if codes == 'HHI' and hi > 65535:
+            rep.bad('R07.c', key, file=f.file, line=items[1][3], func=f.qualname,
+                    found='RD type 0 is chosen for an ASN up to %s, which does not fit the 2-octet field' % hi,
+                    expected='ASN <= 65535', key=key)
+        elif codes == 'HIH' and lo <= 65535:
+            rep.bad('R07.c', key, file=f.file, line=items[1][3], func=f.qualname,
+                    found='RD type 2 (4-octet ASN : 2-octet number) is chosen for ASNs from %s, i.e. also for an '
+                          'ASN that fits 16 bits, whose assigned number may need 32 bits' % lo,
+                    expected='type 2 only for ASN > 65535', key=key)
+        elif not any(i.key == key for i in rep.instances):
+            rep.ok('R07.c', key, file=f.file, line=items[1][3], found='ASN in [%s, %s]' % (lo, hi))
     if sizes == {(8, 8)}:
         rep.ok('R07.c', 'rd-size', file=f.file, line=f.node.lineno, found='8 octets on every path, types %s' % sorted(rd_types))
     else:
